@@ -11,6 +11,7 @@ import PP.Model.Pairing
 import PP.Model.Mont
 import PP.Model.MontLimb
 import PP.Spec.Hash
+import PP.Spec.Hash2
 
 namespace PP.Drv
 open PP
@@ -339,6 +340,13 @@ def groupOp (g : GroupCtx F) (op : String) (args : List String) : Option String 
       pure (showJacO g (do
         let tables ← ps.mapM (fun a => a.precomp256)
         sumOfProductsPrecomp256 ps ks tables.flatten.toArray))
+  | "soppre_prefix", [n, ps, ks] => do
+      let n ← parseHex n
+      let ps ← (splitList ps).mapM A.parse; let ks ← (splitList ks).mapM parseHex
+      if n > ps.length then none else
+      pure (showJacO g (do
+        let tables ← ps.mapM (fun a => a.precomp256)
+        sumOfProductsPrecomp256 (ps.take n) ks tables.flatten.toArray))
   | "findwin", [n] => do let n ← parseHex n; pure (toString (findPippingerWindow n))
   -- C04 / C05
   | "dec_c", [bs] => do let bs ← parseBytes bs; pure (showDecode g (decodeCompressed g.cc bs))
@@ -420,12 +428,16 @@ def g2Ctx : GroupCtx Fq2 where
 
 def sha256H : XmdHash := ⟨32, 64, Hash.sha256⟩
 def sha512H : XmdHash := ⟨64, 128, Hash.sha512⟩
+def sha224H : XmdHash := ⟨28, 64, Hash.sha224⟩
+def sha384H : XmdHash := ⟨48, 128, Hash.sha384⟩
 
 /-- expander by name; `none` result = panic -/
 def expander (name : String) : Option (Bytes → Bytes → Nat → Option Bytes) :=
   match name with
   | "xmd256" => some (expandMessageXmd sha256H)
   | "xmd512" => some (expandMessageXmd sha512H)
+  | "xmd224" => some (expandMessageXmd sha224H)
+  | "xmd384" => some (expandMessageXmd sha384H)
   | "xof128" => some (fun m d l => some (expandMessageXof Hash.shake128 m d l))
   | "xof256" => some (fun m d l => some (expandMessageXof Hash.shake256 m d l))
   | _ => none
@@ -523,6 +535,11 @@ def miscOp (op : String) (args : List String) : Option String :=
       let prep := qs.map G2Prepared.fromAffine
       let pairs ← (List.zip pis qis).mapM (fun (i, j) => do let p ← ps[i]?; let q ← prep[j]?; pure (p, q))
       match millerLoop pairs with
+      | some m => pure (showOpt fq12IO.shw (finalExponentiation m))
+      | none => pure "PANIC"
+  | "millerlazy", [ps, qs] => do
+      let ps ← (splitList ps).mapM A1.parse; let qs ← (splitList qs).mapM A2.parse
+      match millerLoop (List.zip ps (qs.map G2Prepared.fromAffine)) with
       | some m => pure (showOpt fq12IO.shw (finalExponentiation m))
       | none => pure "PANIC"
   | "finalexp", [f] => do let f ← fq12IO.parse f; pure (showOpt fq12IO.shw (finalExponentiation f))
